@@ -829,6 +829,31 @@ pub fn c12(ctx: &mut Ctx) -> (u64, String) {
     }
     ctx.part("search:95 printable ASCII characters x 30 layout objects", json!({"witnesses_found": witnesses, "required": 95 * 30}));
 
+    // Informational only (C12's quantifier names the three plain levels with no lock engaged): the same search with
+    // CapsLock on. Reported in the evidence; never a violation, because Shift/Caps + AltGr on a letter key is
+    // unconstrained by the properties (C03, C10) and a layout may legitimately give that cell no character.
+    {
+        let mut caps_missing: Vec<String> = vec![];
+        for l in 0..N_LAYOUTS {
+            let mut have: BTreeSet<char> = BTreeSet::new();
+            for k in ALL_KEYS {
+                for (_, m) in levels.iter() {
+                    if let Ok(DecodedKey::Unicode(c)) = call(0, l, k, &mods_from_bits(*m | M_CAPS), HandleControl::Ignore) {
+                        have.insert(c);
+                    }
+                }
+            }
+            let missing: String = (0x20u8..=0x7E).map(|c| c as char).filter(|c| !have.contains(c)).collect();
+            if !missing.is_empty() {
+                caps_missing.push(format!("{}: {:?}", LAYOUT_NAMES[l], missing));
+            }
+        }
+        if !caps_missing.is_empty() {
+            ctx.note(&format!("informational (not part of C12 as quantified): with CapsLock ON these characters have no key at the three levels: {}", caps_missing.join("; ")));
+        }
+        ctx.set("informational_untypeable_with_capslock_on", json!(caps_missing));
+    }
+
     // through a real EventDecoder: the character must still be typeable as the very next key after any single key
     // has been tapped at any of the three plain levels (a decoder that remembers the last key must not take a
     // character away)
